@@ -484,6 +484,9 @@ func (w *World) Run(done func() bool) {
 		if done() {
 			return
 		}
+		// done() may have started tasks (timers, injected events): let them reach their first
+		// scheduling point before the enabled set is computed
+		synctest.Wait()
 		w.mu.Lock()
 		if w.Steps >= w.MaxStep {
 			w.StepCap = true
